@@ -28,9 +28,6 @@ def known_class(fmt, ch, text, cat, script=None, line=None):
     # RAW/DWVW has no header: the frame count is an estimate from the file length
     if fmt.major == 0x04 and fmt.codec in (0x40, 0x41, 0x42) and cat in ("short", "eof", "data", "count", "position", "frames"):
         return "KF-RAW-DWVW-FRAMES"
-    # PAF24 stages 2048 items per inner call; channel counts that do not divide 2048 split a frame
-    if fmt.major == 0x05 and fmt.codec == 0x03 and 2048 % ch != 0 and cat in ("data",):
-        return "KF-PAF24-CHUNK"
     return None
 
 
@@ -125,7 +122,7 @@ def allformat_read_campaign(ctx, stride=1, nops=30, channels=(1, 2, 3), route_sk
         stats["histories"] += 1
         stats["ops"] += nops
         ref = {ty: (info["ref"][ty] + ["?"] * (F * ch))[:F * ch] for ty in R.TYS}
-        probs = R.check_test_phase(t, out2.get(name, []), ch, F, ref, info.get("seekable", True))
+        probs = R.check_test_phase(t, out2.get(name, []), ch, F, ref, info.get("seekable", True), bw=R.raw_bw(f, ch), filehex=info.get("filehex"))
         for (k, text, cat) in probs[:3]:
             findings.append(Finding("pred" if cat != "crash" else "crash", name, t, k, text, cat, f, ch))
     return findings, stats
